@@ -829,6 +829,9 @@ v('C04', 'fire', E, 'util.mm_prod(R, V_skew))', 'util.mm_prod(V_skew, R))', 'ope
 v('C04', 'fire', E, '(-util.skew_matrix(rho_n + Omega_n) +', '(-util.skew_matrix(rho_n) +', 'Earth rate dropped from the attitude block')
 
 
+# LOCAL-ORDER (survey: an edited assignment target leaves later reads unbound)
+v('C01 C02 C13', 'fire', K, '        V1 = velocity_n[j, 0]\n', '        V2 = velocity_n[j, 0]\n', 'survey: V1 read before the statement that binds it')
+v('C01', 'fire', K, '        chi1 = Omega1 + rho1\n        chi2', '        chi2 = Omega1 + rho1\n        chi2', 'survey: chi1 bound only further down')
 # ATTR-BOUND (survey: renamed / misspelt attributes end the analysis instead of being reported)
 v('C14 C11 C12', 'fire', IS, '            return self.H\n', '            return self.Hm\n', 'attribute that is bound nowhere in the class')
 v('C02 C13', 'fire', S, 'self.with_altitude)', 'self.with_alt)', 'misspelt attribute handed to the kernel')
